@@ -10,14 +10,21 @@
   is the order the source has today.  What surrounds the loops is modelled by
   hand, following the source:
 
-  * `call_drop_of`: nothing if `!needs_drop(ty)`; the runtime drop function for
-    String / List / registered clone types (leaves with `dr = true`); a call of
-    the generated function otherwise (inlined here).
+  * `call_drop_of` and `call_clone_function` are *not* hand-written either: their
+    statements are extracted too (`CStmt`: the `needs_drop` / `needs_clone` test, the
+    size test around the `memcpy`, the runtime function, the call of the generated
+    function) and interpreted by `runCall`; `callDropOf` / `callCloneOf` turn what
+    they emit into events (runtime function of a leaf, body of the generated
+    function inlined, `memcpy`).  A size test that is hoisted in front of the
+    `needs_clone` test is a different statement list, and a zero-sized droppable
+    leaf is then no longer cloned.
+  * `needs_drop` / `needs_clone` / `get_runtime_drop` / `get_runtime_clone`: the arms of
+    their `match ty` are extracted (`KPat × NeedArm`) and evaluated over type trees by
+    `needsBy` / `hasRuntimeBy`; `needsDrop` below is the closed form the theorems
+    of `Props/C03Glue.lean` prove them equal to.
   * `generate_drop_body_enum`: reads the `u8` discriminant at offset 0 and
     switches; the *last* variant is the default target.
-  * `call_clone_of (Pointer, Pointer)` → `call_clone_function`: `memcpy` of
-    `layout_of(ty).size()` bytes if `!needs_clone(ty)`; the runtime clone
-    function; or the generated clone function.
+  * `call_clone_of (Pointer, Pointer)` → `call_clone_function`.
   * `generate_clone_body_enum`: copies the discriminant, then switches.
   * `layout_of` (`src/mir/ty.rs`) and `LayoutBuilder` (`src/runtime/layout.rs`).
 
@@ -114,6 +121,161 @@ mutual
       unionAll vs (some (match acc with | some l => l.union v | none => v))
 end
 
+/-! ## `needs_drop` / `needs_clone` / `get_runtime_drop` / `get_runtime_clone` as extracted -/
+
+/-- the constructors of `mir::Ty` (`prim` = a primitive other than `String`) -/
+inductive Kind where
+  | unit | never | record | enum | string | prim | list | runtime
+  deriving DecidableEq, Repr, Inhabited
+
+/-- the patterns of the arms of `match ty` -/
+inductive KPat where
+  | unit | never | record | enum | string
+  /-- `Ty::Primitive(_)` -/
+  | primAny
+  | list | runtime
+  /-- `_` -/
+  | wild
+  deriving DecidableEq, Repr, Inhabited
+
+def KPat.matches : KPat → Kind → Bool
+  | .unit, .unit | .never, .never | .record, .record | .enum, .enum | .string, .string
+  | .primAny, .string | .primAny, .prim | .list, .list | .runtime, .runtime => true
+  | .wild, _ => true
+  | _, _ => false
+
+/-- the two predicates (and the two halves of a `CloneDrop` pair) -/
+inductive Fn where
+  | drop | clone
+  deriving DecidableEq, Repr, Inhabited
+
+inductive NeedArm where
+  /-- `false` -/
+  | no
+  /-- `true` -/
+  | yes
+  /-- `fields.iter().any(|&(_, t)| self.needs_<f>(t))` -/
+  | anyField (f : Fn)
+  /-- `variants.iter().flat_map(|v| &v.1).any(|&t| self.needs_<f>(t))` -/
+  | anyVariantField (f : Fn)
+  /-- the movability of the registered type is `CloneDrop` -/
+  | cloneDrop
+  deriving DecidableEq, Repr, Inhabited
+
+/-- first arm whose pattern matches (Rust's `match`) -/
+def armOf : List (KPat × NeedArm) → Kind → Option NeedArm
+  | [], _ => none
+  | (p, a) :: rest, k => if p.matches k then some a else armOf rest k
+
+/-- is the movability of a type of kind `k` `CloneDrop`?  `String` and `List` are registered
+    that way by the runtime itself; for a registered type `cd` says so -/
+def cloneDropOf (k : Kind) (cd : Bool) : Bool :=
+  match k with
+  | .string | .list => true
+  | .runtime => cd
+  | _ => false
+
+mutual
+  /-- `needs_drop` (`f = .drop`) / `needs_clone` (`f = .clone`) evaluated from the extracted arms
+      `A`; `κ` gives the kind of a leaf (by its id) and `cd` whether a registered leaf type is
+      `CloneDrop` -/
+  def needsBy (A : Fn → List (KPat × NeedArm)) (κ : Nat → Kind) (cd : Nat → Bool) :
+      Fn → GTy → Bool
+    | f, .leaf id _ _ _ =>
+      match armOf (A f) (κ id) with
+      | some .yes => true
+      | some .cloneDrop => cd id
+      | _ => false
+    | f, .record fs =>
+      match armOf (A f) .record with
+      | some .yes => true
+      | some (.anyField g) => anyBy A κ cd g fs
+      | _ => false
+    | f, .enum vs =>
+      match armOf (A f) .enum with
+      | some .yes => true
+      | some (.anyVariantField g) => anyVBy A κ cd g vs
+      | _ => false
+  def anyBy (A : Fn → List (KPat × NeedArm)) (κ : Nat → Kind) (cd : Nat → Bool) :
+      Fn → GTys → Bool
+    | _, .nil => false
+    | g, .cons t ts => needsBy A κ cd g t || anyBy A κ cd g ts
+  def anyVBy (A : Fn → List (KPat × NeedArm)) (κ : Nat → Kind) (cd : Nat → Bool) :
+      Fn → GVars → Bool
+    | _, .nil => false
+    | g, .cons fs vs => anyBy A κ cd g fs || anyVBy A κ cd g vs
+end
+
+/-- `get_runtime_drop(ty).is_some()` / `get_runtime_clone(ty).is_some()` from the extracted kinds -/
+def hasRuntimeBy (pats : List KPat) (κ : Nat → Kind) (cd : Nat → Bool) : GTy → Bool
+  | .leaf id _ _ _ => pats.any (·.matches (κ id)) && cloneDropOf (κ id) (cd id)
+  | .record _ => pats.any (·.matches .record) && cloneDropOf .record false
+  | .enum _ => pats.any (·.matches .enum) && cloneDropOf .enum false
+
+/-! ### Which body a generated function gets, and the vtable of a list element -/
+
+inductive BodyArm where
+  /-- `self.emit_return(None);`: the function does nothing -/
+  | ret
+  /-- `generate_drop_body_record` / `generate_clone_body_record` -/
+  | recordLoop
+  /-- `generate_drop_body_enum` / `generate_clone_body_enum` -/
+  | enumSwitch
+  /-- `memcpy` of the whole value, then return (a registered `Copy` type) -/
+  | memcpyRet
+  /-- `ice!(…)`: must be unreachable -/
+  | ice
+  deriving DecidableEq, Repr, Inhabited
+
+/-- `generate_drop_body` / `generate_clone_body`: whether
+    `if let Some(f) = self.get_runtime_…(ty) { <f on the value>; return }` precedes the match on
+    the type, and the arms of that match -/
+structure BodyFn where
+  runtimeFirst : Bool
+  arms : List (KPat × BodyArm)
+  deriving Repr, Inhabited
+
+inductive Body where
+  /-- the runtime drop / clone function on the value itself -/
+  | runtime
+  | arm (a : BodyArm)
+  /-- no arm matches (the Rust `match` would not compile) -/
+  | none
+  deriving DecidableEq, Repr, Inhabited
+
+def bodyArmOf : List (KPat × BodyArm) → Kind → Body
+  | [], _ => .none
+  | (p, a) :: rest, k => if p.matches k then .arm a else bodyArmOf rest k
+
+/-- the body of the generated function of a type of kind `k`; `hasRt` = the runtime lookup succeeds -/
+def BodyFn.body (B : BodyFn) (hasRt : Bool) (k : Kind) : Body :=
+  if B.runtimeFirst && hasRt then .runtime else bodyArmOf B.arms k
+
+/-- `call_runtime`: the vtable gets the function `fn` of the element type when `needs_<cond>` -/
+structure VtFn where
+  cond : Fn
+  fn : Fn
+  deriving DecidableEq, Repr, Inhabited
+
+/-- the kinds a leaf can have -/
+def Kind.isLeaf : Kind → Bool
+  | .record | .enum => false
+  | _ => true
+
+mutual
+  /-- the `dr` bit of every leaf is what its kind says: `String`, `List`, registered `CloneDrop` -/
+  def Kinded (κ : Nat → Kind) (cd : Nat → Bool) : GTy → Bool
+    | .leaf id _ _ dr => (κ id).isLeaf && (dr == cloneDropOf (κ id) (cd id))
+    | .record fs => KindedFs κ cd fs
+    | .enum vs => KindedVs κ cd vs
+  def KindedFs (κ : Nat → Kind) (cd : Nat → Bool) : GTys → Bool
+    | .nil => true
+    | .cons t ts => Kinded κ cd t && KindedFs κ cd ts
+  def KindedVs (κ : Nat → Kind) (cd : Nat → Bool) : GVars → Bool
+    | .nil => true
+    | .cons fs vs => KindedFs κ cd fs && KindedVs κ cd vs
+end
+
 /-! ## The loops as extracted -/
 
 inductive Base where
@@ -148,6 +310,85 @@ inductive Pre where
   | addTag
   deriving DecidableEq, Repr, Inhabited
 
+/-! ## `call_drop_of` / `call_clone_function` as extracted -/
+
+inductive CCond where
+  /-- `!self.needs_drop(ty)` in `call_drop_of`, `!self.needs_clone(ty)` in `call_clone_function` -/
+  | notNeeds
+  /-- `size == 0` -/
+  | sizeZero
+  /-- `size > 0` -/
+  | sizePos
+  /-- `let Some(f) = self.get_runtime_drop(ty)` / `get_runtime_clone(ty)` -/
+  | hasRuntime
+  deriving DecidableEq, Repr, Inhabited
+
+inductive CStmt where
+  /-- `let size = self.layout_of(ty).unwrap().size() as u32;` -/
+  | letSize
+  /-- `if c { <the next n statements> }` -/
+  | ifc (c : CCond) (n : Nat)
+  /-- `return;` -/
+  | ret
+  /-- `self.emit_memcpy(to.into(), from.into(), size);` -/
+  | memcpy
+  /-- the runtime drop / clone function of a registered type, String or List -/
+  | runtime
+  /-- the call of `::generated::drop_<ty>` / `::generated::clone_<ty>` -/
+  | callGen
+  /-- `self.ctx.drops_to_generate.push_back(ty)` / `clones_to_generate` -/
+  | enqueue
+  deriving DecidableEq, Repr, Inhabited
+
+/-- what a call decision emits -/
+inductive Act where
+  | memcpy (n : Nat)
+  | runtime
+  | callGen
+  | enqueue
+  /-- `size` is used before `let size` (the Rust would not compile) -/
+  | stuck
+  deriving DecidableEq, Repr, Inhabited
+
+/-- what the decisions look at: `layout_of(ty).size()`, `needs_drop(ty)` (= `needs_clone(ty)`),
+    whether `get_runtime_drop(ty)` (`get_runtime_clone(ty)`) finds a function -/
+structure CallEnv where
+  size : Nat
+  needs : Bool
+  hasRt : Bool
+  deriving DecidableEq, Repr, Inhabited
+
+def CCond.holds (e : CallEnv) (bound : Bool) : CCond → Option Bool
+  | .notNeeds => some (!e.needs)
+  | .sizeZero => if bound then some (e.size == 0) else none
+  | .sizePos => if bound then some (!(e.size == 0)) else none
+  | .hasRuntime => some e.hasRt
+
+/-- Run the statements of a call decision. `skip` = statements of an `if` body still to be
+    skipped (its condition was false); `bound` = `let size` has been executed. -/
+def runCall (e : CallEnv) : List CStmt → Nat → Bool → List Act → List Act
+  | [], _, _, acc => acc
+  | _ :: rest, k + 1, b, acc => runCall e rest k b acc
+  | .letSize :: rest, 0, _, acc => runCall e rest 0 true acc
+  | .ifc c n :: rest, 0, b, acc =>
+    match c.holds e b with
+    | some true => runCall e rest 0 b acc
+    | some false => runCall e rest n b acc
+    | none => acc ++ [.stuck]
+  | .ret :: _, 0, _, acc => acc
+  | .memcpy :: rest, 0, b, acc =>
+    if b then runCall e rest 0 b (acc ++ [.memcpy e.size]) else acc ++ [.stuck]
+  | .runtime :: rest, 0, b, acc => runCall e rest 0 b (acc ++ [.runtime])
+  | .callGen :: rest, 0, b, acc => runCall e rest 0 b (acc ++ [.callGen])
+  | .enqueue :: rest, 0, b, acc => runCall e rest 0 b (acc ++ [.enqueue])
+
+def callActs (stmts : List CStmt) (e : CallEnv) : List Act := runCall e stmts 0 false []
+
+/-- does the call make a host function run (the runtime function, or the generated one)? -/
+def Act.isHost : Act → Bool
+  | .runtime | .callGen => true
+  | _ => false
+
 structure Prog where
   dropRecord : List Step
   dropEnumPre : List Pre
@@ -155,6 +396,10 @@ structure Prog where
   cloneRecord : List Step
   cloneEnumPre : List Pre
   cloneEnum : List Step
+  /-- `call_drop_of` -/
+  dropCall : List CStmt
+  /-- `call_clone_function` -/
+  cloneCall : List CStmt
   deriving Repr, Inhabited
 
 /-! ## Events -/
@@ -235,6 +480,35 @@ def runPre : List Pre → Builder → Builder
   | [], b => b
   | .addTag :: rest, b => runPre rest (b.add tagLayout)
 
+/-! ## What a call decision makes happen -/
+
+/-- `get_runtime_drop(ty)` / `get_runtime_clone(ty)` find a function: a leaf whose movability is
+    `CloneDrop` (closed form; `hasRuntimeBy` evaluates the extracted arms) -/
+def isDrLeaf : GTy → Bool
+  | .leaf _ _ _ dr => dr
+  | _ => false
+
+def callEnv (t : GTy) : CallEnv := ⟨(layoutOf t).size, needsDrop t, isDrLeaf t⟩
+
+/-- `call_drop_of(p, t)` at run time: `body` is what the generated drop function of `t` does on `p` -/
+def callDropOf (P : Prog) (t : GTy) (p : Nat) (body : List Ev) : List Ev :=
+  (callActs P.dropCall (callEnv t)).flatMap fun
+    | .runtime => (match t with | .leaf id _ _ _ => [.drop p id] | _ => [.stuck])
+    | .callGen => body
+    | .enqueue => []
+    | .memcpy _ => [.stuck]
+    | .stuck => [.stuck]
+
+/-- `call_clone_function(src, dst, t)` at run time: `body` is what the generated clone function
+    of `t` does -/
+def callCloneOf (P : Prog) (t : GTy) (src dst : Nat) (body : List Ev) : List Ev :=
+  (callActs P.cloneCall (callEnv t)).flatMap fun
+    | .runtime => (match t with | .leaf id _ _ _ => [.clone src dst id] | _ => [.stuck])
+    | .callGen => body
+    | .enqueue => []
+    | .memcpy n => [.copy src dst n]
+    | .stuck => [.stuck]
+
 /-! ## The generated drop functions -/
 
 mutual
@@ -248,7 +522,7 @@ mutual
     | .nil, _, _ => []
     | .cons t ts, a, b =>
       let s := runSteps (layoutOf t) (needsDrop t) a a
-        (fun p => if needsDrop t then dropTy P ρ t p else []) (fun _ _ => [.stuck])
+        (fun p => callDropOf P t p (dropTy P ρ t p)) (fun _ _ => [.stuck])
         P.dropRecord (Iter.start b (layoutOf t) false)
       s.out ++ dropFields P ρ ts a s.b
   /-- the switch of `generate_drop_body_enum`: variant `k`, the last one by default -/
@@ -262,7 +536,7 @@ mutual
     | .nil, _, _ => []
     | .cons t ts, a, b =>
       let s := runSteps (layoutOf t) (needsDrop t) a a
-        (fun p => if needsDrop t then dropTy P ρ t p else []) (fun _ _ => [.stuck])
+        (fun p => callDropOf P t p (dropTy P ρ t p)) (fun _ _ => [.stuck])
         P.dropEnum (Iter.start b (layoutOf t) true)
       s.out ++ dropVFields P ρ ts a s.b
 end
@@ -279,7 +553,7 @@ mutual
     | .nil, _, _, _ => []
     | .cons t ts, src, dst, b =>
       let s := runSteps (layoutOf t) (needsDrop t) src dst (fun _ => [.stuck])
-        (fun p q => if needsDrop t then cloneTy P ρ t p q else [.copy p q (layoutOf t).size])
+        (fun p q => callCloneOf P t p q (cloneTy P ρ t p q))
         P.cloneRecord (Iter.start b (layoutOf t) false)
       s.out ++ cloneFields P ρ ts src dst s.b
   def cloneVariants (P : Prog) (ρ : Nat → Nat) : GVars → Nat → Nat → Nat → List Ev
@@ -292,7 +566,7 @@ mutual
     | .nil, _, _, _ => []
     | .cons t ts, src, dst, b =>
       let s := runSteps (layoutOf t) (needsDrop t) src dst (fun _ => [.stuck])
-        (fun p q => if needsDrop t then cloneTy P ρ t p q else [.copy p q (layoutOf t).size])
+        (fun p q => callCloneOf P t p q (cloneTy P ρ t p q))
         P.cloneEnum (Iter.start b (layoutOf t) true)
       s.out ++ cloneVFields P ρ ts src dst s.b
 end
